@@ -493,6 +493,15 @@ def main(tier, seed):
             nonblank = len([l for l in text.split("\n") if l.strip()])
             big = (not marked) and lines is None and nonblank > 100
             add("text", text, isa, archs[isa][0], big=big, lines=lines, gen="len%d%s" % (n, "m" if marked else ""))
+        # the threshold counts PARSED lines (labels, directives and comments included), not instructions:
+        # 96 / 100 instructions with 8 / 1 other lines in between are large kernels, 95 + 5 is not
+        for ninstr, nother in ((96, 8), (100, 1), (95, 5)):
+            body = gen_kernel(isa, ninstr, "known", rnd=rnd).split("\n")[:-1]
+            other = [".L%d:" % q if q % 3 == 0 else (POOL[isa]["cm"] + " note %d" % q if q % 3 == 1 else ".p2align 4")
+                     for q in range(nother)]
+            for q, o in enumerate(other):
+                body.insert(3 + 9 * q, o)
+            add("text", "\n".join(body) + "\n", isa, archs[isa][0], big=(ninstr + nother > 100), gen="len%d+%d" % (ninstr, nother))
         # F2 witness class: --fixed with an entry that offers alternative port assignments
         if isa == "aarch64" and "a64fx" in archs[isa]:
             add("text", "smlal v0.2d, v1.2s, v2.2s\nadd x0, x0, #1\n", isa, "a64fx", fixed=True, gen="alt-assign")
